@@ -26,7 +26,12 @@ CLAIMED = {
               "the grammar is unambiguous, the fuel is never exhausted, parentheses are transparent to the resolver. "
               "Scanner (C01_scanner.v): the token loop accepts exactly the separated renderings of well-formed "
               "lexemes, whitespace between tokens never matters, intercept insertion, rejection of empty text / two "
-              "tildes / unterminated strings and names / characters outside the alphabet, fuel never exhausted." + COMMON),
+              "tildes / unterminated strings and names / characters outside the alphabet, fuel never exhausted. "
+              "Composition on formula TEXTS (C01_text.v): scan-then-parse accepts a string iff it is a separated "
+              "rendering of a well-formed lexeme list with at most one tilde whose tokens (intercept inserted as the "
+              "scanner does) the grammar derives, and returns THE tree of the grammar; every other string is refused "
+              "with a scan or a parse error (exact conditions and error codes, trichotomy); 22 precedence / "
+              "associativity laws for all identifier operands." + COMMON),
         design_ref="DESIGN.md section 5 C01, section 10",
         technique="Coq proof: scanner characterised by renderings, parser sound+complete w.r.t. precedence grammar; translator tie; differential correspondence"),
     "C02": dict(
@@ -55,7 +60,15 @@ CLAIMED = {
               "and Sum-coded components: column j holds the product of what the pieces of its label denote "
               "(C04_every_column_holds_what_its_label_says); the same for matrix-valued numeric components (bs, poly: "
               "labels name[i], entries of the basis matrix) and offsets (C04_matrix.v); levels sorted and "
-              "duplicate-free. Listed finding KF-C04-1: a spline basis without any column keeps one label." + COMMON),
+              "duplicate-free. Whole designs (C04_whole.v): for every accepted design of supported components the "
+              "flattened label list is the printed list of structured labels, has as many entries as the matrix has "
+              "columns, and column j is the denotation of label j (also stated against the retained rows of the "
+              "frame); the response column(s) are the denotation of the response's labels (numeric, y[level], full "
+              "indicators, prop = successes and trials); level order: strictly sorted by the model's string order (a "
+              "proved strict total order) for str data, as declared for ordered data / levels=, numerically for integer "
+              "codes; labels are pairwise distinct under three explicit conditions, each shown necessary by a "
+              "refuted witness (a back-quoted name `f[a]`, a level containing ']:g[', a level named mean). "
+              "Listed finding KF-C04-1: a spline basis without any column keeps one label." + COMMON),
         design_ref="DESIGN.md section 5 C04, section 10",
         technique="Coq proof: labelled Kronecker product / indicator coding; differential correspondence; label-denotation oracle"),
     "C05": dict(
@@ -69,7 +82,12 @@ CLAIMED = {
               "(C05_group_block_is_common_interaction), and on complete-factorial cells the columns of (1|g), "
               "(0 + f|g) and (1|g) + (f|g) are linearly independent and span all g-by-f cell means (C05_rank.v, "
               "MathComp, through the C03 tensor bridge); two effects in full coding are dependent "
-              "(C05_rank_refuted_two_full_effects). The rank oracle on crossed data decides every other input." + COMMON),
+              "(C05_rank_refuted_two_full_effects). Numeric effects (C05_rank_num.v, any field): the rank of a group "
+              "block is the sum over the groups of the rank of the effect matrix within the group; (x|g) has "
+              "independent columns iff x is not constant within any group, (0 + x|g) iff x is non-zero somewhere in "
+              "every group, p effect columns iff the within-group effect matrix has rank p in every group; the span "
+              "is a separate regression within each group; a common intercept plus (1|g) is always rank deficient. "
+              "The rank oracle on crossed data decides every other input." + COMMON),
         design_ref="DESIGN.md section 5 C05, section 10",
         technique="Coq proof: one-hot Kronecker block structure; rank oracle on crossed designs; correspondence"),
     "C06": dict(
@@ -168,7 +186,13 @@ CLAIMED = {
               "TRANSFORMS registry (Tie.v); binary/offset/I specifications (see property file). Prediction time: "
               "offset(v) is recomputed from the new frame and a constant is broadcast to its rows, prop reports the "
               "trials of the new frame, binary applies its rule to the new frame, a proportion is never a predictor "
-              "(C16_*_at_prediction, C16_prop_trials_of_new_frame)." + COMMON),
+              "(C16_*_at_prediction, C16_prop_trials_of_new_frame). Whole designs (C16_design.v): "
+              "y ~ rhs + offset(v) is the design of y ~ rhs plus one offset term holding v (a constant broadcast), "
+              "recomputed from the new frame at prediction while the other terms do not move; prop / p / proportion "
+              "accepted iff integer successes not exceeding integer trials (prop_ok_iff) and equal up to the "
+              "response's name; binary / B designs with default and refusal; I(e) and {e} give equal designs for "
+              "every expression; refuted clauses recorded (0 <= successes is not checked, binary(x) without a "
+              "success value is not frozen: KF-C06-2)." + COMMON),
         design_ref="DESIGN.md section 5 C16, section 10",
         technique="Coq proof: alias equalities + registry tie; correspondence of helper calls at training and prediction time"),
     "C17": dict(
